@@ -60,6 +60,10 @@ def scenarios(tier, rng):
     # (1 polar axis, 2 x axis, 4 y axis, 8 exact cell centre, 16 cell face, 32 cell edge); dyadic and non-dyadic boxes
     for H, place, box in [(4, 6, boxes[0]), (4, 48, boxes[0]), (3, 1, boxes[0]), (4, 8, boxes[0]), (4, 48, boxes[1]), (5, 54, boxes[2])]:
         sc.append(dict(H=H, B=rng.choice([7, 30]), mode=rng.below(2), ex=0, N=500, seed=rng.below(1000), box=box, charge=1, fam=None, place=place))
+    # charge conservation of the upward pass (P2M + M2M): at every level the multipole weights sum to the total charge
+    # (uniform kernel: partition of unity of the Lagrange polynomials, Properties_C05; rotation kernel: the monopole term)
+    for H, chg in [(5, 1), (4, 0), (6, 1)] + ([(7, 1), (3, 0)] if tier != "quick" else []):
+        sc.append(dict(H=H, B=rng.choice([3, 30, 10000000]), mode=rng.below(2), ex=0, N=900, seed=rng.below(1000), box=boxes[H % 3], charge=chg, fam=None, cons=True))
     # target/source variant (C05: "target/source and periodic variants"): separate particle sets, targets against the sum over sources
     for H, rel, ex in [(4, 0, 0), (5, 1, 0), (4, 2, 1), (5, 3, 0)] + ([(6, 1, 1), (3, 0, 0), (6, 3, 0)] if tier != "quick" else []):
         sc.append(dict(H=H, B=rng.choice([7, 30, 10000000]), mode=rng.below(2), ex=ex, N=300, Ns=700, seed=rng.below(1000), box=boxes[(H + rel) % 3], charge=1, fam=None, rel=rel))
@@ -72,6 +76,8 @@ def scenarios(tier, rng):
 
 
 def cmdline(s):
+    if "cons" in s:
+        return "numc %d %d %d %d %d %r %r %r %r %d" % (s["H"], s["B"], s["mode"], s["N"], s["seed"], s["box"][0], s["box"][1], s["box"][2], s["box"][3], s["charge"])
     if "rel" in s:
         return "numt %d %d %d %d %d %d %d %r %r %r %r %d %d" % (s["H"], s["B"], s["mode"], s["ex"], s["Ns"], s["N"], s["seed"], s["box"][0], s["box"][1], s["box"][2], s["box"][3], s["charge"], s["rel"])
     if "k" in s:
@@ -84,13 +90,13 @@ def parse(line):
     return dict(x.split("=") for x in line.split())
 
 
-def run_num(pid, kernel, kname, tier, seed):
+def run_num(pid, kernel, kname, tier, seed, extra=None, extra_props=()):
     rep = vlib.Report(pid, tier, seed, "other")
     sdir = vlib.scratch(pid)
     try:
         # the proved facts this property leans on
         n_obl = 0
-        for pf in ("Properties_C01", "Properties_C08", "Properties_C20"):
+        for pf in ("Properties_C01", "Properties_C08", "Properties_C20") + tuple(extra_props):
             st = vlib.proof_status(pf)
             n_obl += len(st["theorems"])
             if not st["compiled"]:
@@ -130,6 +136,12 @@ def run_num(pid, kernel, kname, tier, seed):
                 if line.startswith("ABORT"):
                     rep.violation(dict(kind="abort", clause="num" + where, has_input=True), "aborted on " + case + ": " + line, dict(case=case, impl=line)); continue
                 r = parse(line)
+                if "cons" in s:
+                    lim = 1e-12 if real == "double" else 2e-5
+                    if not (float(r["cons"]) <= lim):
+                        rep.violation(dict(kind="oracle", clause="charge-conservation", has_input=True),
+                                      "the multipoles of some level do not sum to the total charge (relative deviation %s > %.0e) on %s" % (r["cons"], lim, case), dict(case=case, impl=line))
+                    continue
                 rep.nontrivial.add(case) if s["H"] >= 4 else None
                 if r["finite"] != "1" or int(r["count"]) != s["N"]:
                     rep.violation(dict(kind="oracle", clause="finite" + where, has_input=True), "non-finite or missing results on " + case, dict(case=case, impl=line))
@@ -181,6 +193,7 @@ def run_num(pid, kernel, kname, tier, seed):
                                        % (kname, len(params), len(sc), max(s["H"] for s in sc), kname, n_obl))
         rep.coverage["rule"] = "scenario = (height, block size, mode, executor, N, seed, box, charge mode); non-trivial = height >= 4 (multi-level translations)"
         rep.coverage["bands"] = {str(k): v for k, v in BANDS[kernel].items()}
+        if extra: extra(rep, sdir, rng)
         return rep.finish()
     finally:
         vlib.cleanup(sdir)
